@@ -60,4 +60,32 @@ def urun (u : USt) : List UEv → Option USt
   | [] => some u
   | e :: es => match ustep u e with | some u' => urun u' es | none => none
 
+/-! ### Close called concurrently (keystore.go / resettable_keystore.go `Close`) -/
+
+/-- the close channel and the callers of `Close`: `pc t` = 0 not yet, 1 = found the channel open (legacy only), 2 = back -/
+structure CSt where
+  chanClosed : Bool := false
+  onceDone : Bool := false
+  pc : Nat → Nat := fun _ => 0
+  panicked : Bool := false
+
+def setPc (f : Nat → Nat) (t v : Nat) : Nat → Nat := fun u => if u = t then v else f u
+
+/-- as it was: `select { case <-s.close: default: close(s.close) … }` — the test and the close are two steps -/
+inductive CStepOld : CSt → CSt → Prop where
+  | test (s : CSt) (t : Nat) (h : s.pc t = 0) :
+      CStepOld s { s with pc := setPc s.pc t (if s.chanClosed then 2 else 1) }
+  | close (s : CSt) (t : Nat) (h : s.pc t = 1) :
+      CStepOld s { s with chanClosed := true, panicked := s.panicked || s.chanClosed, pc := setPc s.pc t 2 }
+
+/-- repaired: `closeOnce.Do(func() { close(s.close) … })` — sync.Once lets exactly one caller in -/
+inductive CStepNew : CSt → CSt → Prop where
+  | once (s : CSt) (t : Nat) (h : s.pc t = 0) :
+      CStepNew s { s with onceDone := true, chanClosed := true,
+                          panicked := s.panicked || (!s.onceDone && s.chanClosed), pc := setPc s.pc t 2 }
+
+inductive CReach (step : CSt → CSt → Prop) : CSt → Prop where
+  | init : CReach step {}
+  | step (s s' : CSt) (h : CReach step s) (hs : step s s') : CReach step s'
+
 end KadDHT.Life
